@@ -17,12 +17,12 @@ import (
 // ------------------------------------------------------------------ C17 (load)
 
 type evLoadSpec struct {
-	OsEnv     map[string]string `json:"os_env"`     // set in the harness process before loading
-	DotEnv    map[string]string `json:"dot_env"`    // written to a .env file
+	OsEnv     map[string]string `json:"os_env"`  // set in the harness process before loading
+	DotEnv    map[string]string `json:"dot_env"` // written to a .env file
 	Disable   bool              `json:"disable_env_expansion"`
-	Fragments []string          `json:"fragments"`  // text pieces of the command, raw as written in the file
-	Descr     []string          `json:"descr"`      // text pieces of the description
-	EnvVal    []string          `json:"env_val"`    // text pieces of one environment value
+	Fragments []string          `json:"fragments"` // text pieces of the command, raw as written in the file
+	Descr     []string          `json:"descr"`     // text pieces of the description
+	EnvVal    []string          `json:"env_val"`   // text pieces of one environment value
 }
 
 var evNames = []string{"PCV_A", "PCV_B", "PCV_C", "PCV_UNDEF", "PCV_D"}
@@ -352,7 +352,7 @@ func runEnvLaunch(c fw.Case) fw.Result {
 func init() {
 	fw.Register(&fw.Property{
 		ID: "C17", Level: "exploration",
-		Rule: "load: configuration text assembled from random placements of $VAR, ${VAR}, $$, $$VAR, $$$VAR, $${VAR}, undefined and longer names in command / description / environment values, loaded under a controlled process environment plus a .env file, with and without disable_env_expansion, compared with a reference expansion; launch: random overlaps of inherited, global, env_cmds and per-process definitions of the same keys on 1-3 replicas, the environment and directory handed to the (simulated) command compared with the reference layering per-process > global > inherited and the injected PC_PROC_NAME / PC_REPLICA_NUM, plus a real `env; pwd` child as a cross-check; distinct = file content + environment",
+		Rule:        "load: configuration text assembled from random placements of $VAR, ${VAR}, $$, $$VAR, $$$VAR, $${VAR}, undefined and longer names in command / description / environment values, loaded under a controlled process environment plus a .env file, with and without disable_env_expansion, compared with a reference expansion; launch: random overlaps of inherited, global, env_cmds and per-process definitions of the same keys on 1-3 replicas, the environment and directory handed to the (simulated) command compared with the reference layering per-process > global > inherited and the injected PC_PROC_NAME / PC_REPLICA_NUM, plus a real `env; pwd` child as a cross-check; distinct = file content + environment",
 		Assumptions: []string{"effective environment = last occurrence wins (exec semantics)", "values without single quotes / newlines (they are YAML-quoted in the file)"},
 		Gen: func(seed int64, tier string) []fw.Case {
 			var cs []fw.Case
